@@ -580,34 +580,43 @@ func (s *Store) gcIndex(ctx context.Context) error {
 	}
 
 	// index referrer manifests
-	for ref, desc := range refMap {
-		if ref != desc.Digest.String() || tagged.Contains(desc.Digest) {
-			continue
-		}
-		// check if the referrers manifest can traverse to the existing graph
-		subject := &desc
-		for {
-			next, err := manifestutil.Subject(ctx, s.storage, *subject)
-			if err != nil {
-				if errors.Is(err, errdef.ErrNotFound) {
-					// the chain ends at a manifest that is not stored
+	// A referrer may only become reachable through another referrer, so the
+	// pass is repeated until it indexes nothing new; the result does not
+	// depend on the iteration order of refMap.
+	for indexed := true; indexed; {
+		indexed = false
+		for ref, desc := range refMap {
+			if ref != desc.Digest.String() || tagged.Contains(desc.Digest) {
+				continue
+			}
+			// check if the referrers manifest can traverse to the existing graph
+			subject := &desc
+			for {
+				next, err := manifestutil.Subject(ctx, s.storage, *subject)
+				if err != nil {
+					if errors.Is(err, errdef.ErrNotFound) {
+						// the chain ends at a manifest that is not stored
+						break
+					}
+					return err
+				}
+				if next == nil {
 					break
 				}
-				return err
-			}
-			if next == nil {
-				break
-			}
-			subject = next
-			if graph.Exists(*subject) {
-				if err := tagResolver.Tag(ctx, deleteAnnotationRefName(desc), desc.Digest.String()); err != nil {
-					return err
+				subject = next
+				if graph.Exists(*subject) {
+					if err := tagResolver.Tag(ctx, deleteAnnotationRefName(desc), desc.Digest.String()); err != nil {
+						return err
+					}
+					plain := descriptor.Plain(desc)
+					if err := graph.IndexAll(ctx, s.storage, plain); err != nil {
+						return err
+					}
+					// done with this referrer
+					tagged.Add(desc.Digest)
+					indexed = true
+					break
 				}
-				plain := descriptor.Plain(desc)
-				if err := graph.IndexAll(ctx, s.storage, plain); err != nil {
-					return err
-				}
-				break
 			}
 		}
 	}
